@@ -114,6 +114,9 @@ func runCheck(prop, tier string, seed int) (int, *Evidence) {
 		if err != nil {
 			return fail("loading /repo: %v", err)
 		}
+		if bad := CheckGlobalsImmutable(P, db); len(bad) > 0 {
+			return fail("global clauses are not sound: %s", strings.Join(bad, "; "))
+		}
 		for _, k := range db.SortedKeys() {
 			s := db.Funcs[k]
 			if !hasProp(s, prop) || s.Trusted || s.IsC || strings.Contains(k, "#") {
@@ -281,7 +284,7 @@ func replayModel(o *Obl, rep map[string]any) bool {
 
 var commonAssumptions = []string{
 	"memory model: objects are sequences of abstract cells, one heap per cell sort (Burstall-Bornat); unsafe casts are not modelled",
-	"every object has fewer than 2^48 cells; allocation never fails (memory exhaustion is a documented exception)",
+	"every slice received from outside has fewer than 2^31 elements (lengths are passed to C as int: a longer slice would be truncated; such inputs need > 2 GiB and are outside every property's quantifier); allocation never fails",
 	"append is modelled as copy-to-fresh (the old backing array is dead after x = append(x, ...) at every use in /repo)",
 	"strings are an uninterpreted sort with a length; contents of formatted messages are not modelled",
 }
